@@ -5,11 +5,12 @@ C20 driver: parses the case lines the harness executes (harness/c20/c20.c, harne
 Case lines:
   pol cf <dir> <spec>              creator_file answer for /c20/<dir>/...
   pol vs <oid|*> <uid|*|-> <spec>  valid_seteuid answer (`-` = empty uid)
+  pol co <dir> none|i:<n>|err|t:<template path>|-   compile_object answer for /c20/<dir>/... (`-` = no policy)
   script <name> <op>;<op>..|-      ops run by create() of the object with that file name (<path> / <path>#)
   do <oid> <op>                    op: seteuid,s:<name> | seteuid,i:<n> | export,<oid> | load,<path> |
                                        clone,<newoid>,<path> | dest,<oid> | reload,<oid>
   spec: s:<text> | i:<n> | arr | err | none
-Trace lines:  do / vs / cf / new / r / q / crash
+Trace lines:  do / vs / co / cf / new / r / q / crash
 -/
 import NV.Common.Proto
 import NV.C20.Model
@@ -58,14 +59,22 @@ def us : Option Name → String
   | some n => "s:" ++ n
   | none => "0"
 
-def snapLine (S : List Obj) : Option String :=
+def CoAns.render : CoAns → String
+  | .silent => "silent"
+  | .none => "none"
+  | .nonobj n => "i:" ++ toString n
+  | .err => "err"
+  | .tmpl p => "t:" ++ p.name
+
+def snapLine (S : List Obj) (vo : List Oid) : Option String :=
   if S.any (fun o => o.uid.isNone) then none
   else
     let m := match getO S masterOid with
       | some o => [o]
       | none => []
     let rest := (S.filter (fun o => o.oid ≠ masterOid)).mergeSort (fun a b => !(b.oid < a.oid))
-    some ("q" ++ String.join ((m ++ rest).map (fun o => " " ++ o.oid ++ "=" ++ us o.uid ++ "/" ++ us o.euid)))
+    some ("q" ++ String.join ((m ++ rest).map (fun o => " " ++ o.oid ++ "=" ++ us o.uid ++ "/" ++ us o.euid ++
+      (if vo.contains o.oid then "*" else ""))))
 
 def renderCreations : List Creation → List String × Bool
   | [] => ([], false)
@@ -79,21 +88,25 @@ def renderCreations : List Creation → List String × Bool
       if m.uid.isNone then (cfl ++ ["crash"], true)
       else
         let (l, cr) := renderCreations cs
-        (cfl ++ ["new " ++ m.oid ++ " " ++ m.name ++ " " ++ us m.uid ++ " " ++ us m.euid] ++ l, cr)
+        (cfl ++ ["new " ++ m.oid ++ " " ++ c.name ++ " " ++ us m.uid ++ " " ++ us m.euid] ++ l, cr)
 
 def StepRec.render (r : StepRec) : List String :=
   let head := if r.first then ["do " ++ r.actor ++ " " ++ r.op.render] else []
   let vsl := match r.vs with
     | some (o, u, a) => ["vs " ++ o ++ " s:" ++ u ++ " " ++ a.render]
     | none => []
+  let col := match r.co with
+    | some (n, a) => ["co " ++ n ++ " " ++ a.render]
+    | none => []
   let (cl, crashed) := renderCreations r.creations
+  let vsl := vsl ++ col
   if crashed then head ++ vsl ++ cl
   else
     let rl := match r.res with
       | some x => ["r " ++ x.render]
       | none => []
     let ql := match r.snap with
-      | some S => (match snapLine S with
+      | some S => (match snapLine S r.vsnap with
         | some l => [l]
         | none => ["crash"])
       | none => []
@@ -111,8 +124,15 @@ def parseAns (s : String) : Option Ans :=
 
 def parsePath (s : String) : Option Path :=
   match s.splitOn "/" with
-  | ["", "c20", d, f] => some { dir := d, file := f }
+  | ["", "c20", d, f] => if (d ++ f).contains '#' then none else some { dir := d, file := f }
   | _ => none
+
+def parseCo (s : String) : Option CoAns :=
+  if s == "none" then some .none
+  else if s == "err" then some .err
+  else if s.startsWith "i:" then (s.drop 2).toString.toInt?.map .nonobj
+  else if s.startsWith "t:" then (parsePath (s.drop 2).toString).map .tmpl
+  else none
 
 def parseOp (s : String) : Option Op :=
   match s.splitOn "," with
@@ -132,6 +152,7 @@ structure Tables where
     [("u1", .str "u1"), ("u2", .str "u2"), ("bb", .str "Backbone"), ("root", .str "Root"), ("odd", .int 0)]
   vs : List (String × Ans) := []
   scripts : List (String × List Op) := []
+  co : List (String × Option CoAns) := []
 
 def lookupS (l : List (String × Ans)) (k : String) : Option Ans :=
   (l.find? (fun e => e.1 == k)).map (·.2)
@@ -140,6 +161,14 @@ def Tables.cfAns (t : Tables) (name : String) : Ans :=
   match name.splitOn "/" with
   | "" :: "c20" :: d :: _ :: _ => (lookupS t.cf d).getD (.str "Root")
   | _ => .str "Root"
+
+def Tables.coAns (t : Tables) (name : String) : CoAns :=
+  match name.splitOn "/" with
+  | "" :: "c20" :: d :: _ :: _ =>
+    (match t.co.find? (fun e => e.1 == d) with
+     | some (_, some a) => a
+     | _ => .silent)
+  | _ => .silent
 
 def Tables.vsAns (t : Tables) (o : Oid) (u : Name) : Ans :=
   match lookupS t.vs (o ++ ":" ++ u) with
@@ -167,6 +196,12 @@ def parseLine (p : Parsed) (line : String) : Parsed :=
       let parsed := (ops.splitOn ";").map (fun o => (parseOp o).filter (fun op => op.render == o))
       if parsed.all Option.isSome then { p with tab := { p.tab with scripts := (key, parsed.filterMap id) :: p.tab.scripts } }
       else { p with bad := line :: p.bad }
+  | ["pol", "co", d, spec] =>
+    if spec == "-" then { p with tab := { p.tab with co := (d, none) :: p.tab.co } }
+    else
+      match parseCo spec with
+      | some a => { p with tab := { p.tab with co := (d, some a) :: p.tab.co } }
+      | none => { p with bad := line :: p.bad }
   | ["pol", "cf", d, spec] =>
     match parseAns spec with
     | some a => { p with tab := { p.tab with cf := (d, a) :: p.tab.cf } }
@@ -196,7 +231,10 @@ def policyOf (steps : List ((Oid × Op) × Tables)) : Policy :=
       | none => .int 1,
     script := fun i key => match arr[i]? with
       | some e => ((e.2.scripts.find? (fun x => x.1 == key)).map (·.2)).getD []
-      | none => [] }
+      | none => [],
+    co := fun i name => match arr[i]? with
+      | some e => e.2.coAns name
+      | none => .silent }
 
 def runModel (lines : List String) : List String :=
   let p := parseCase lines
@@ -225,7 +263,8 @@ def parseRes (ws : List String) : Option Res :=
     | none => some (.oid x)
   | _ => none
 
-def parseSnapEntry (s : String) : Option Obj :=
+def parseSnapEntry (s0 : String) : Option Obj :=
+  let s := if s0.endsWith "*" then (s0.dropEnd 1).toString else s0
   match s.splitOn "=" with
   | [o, ue] =>
     match ue.splitOn "/" with
@@ -279,6 +318,8 @@ def jline (j : JParse) (line : String) : JParse :=
       match parseU u, parseAns spec with
       | some (some u), some a => if r.vs.isNone then some { r with vs := some (o, u, a) } else none
       | _, _ => none
+  | ["co", name, spec] =>
+    j.upd line fun r => if r.co.isSome then none else (parseCo spec).map fun a => { r with co := some (name, a) }
   | ["cf", name, spec] =>
     j.upd line fun r => (parseAns spec).map fun a =>
       { r with creations := r.creations ++ [{ name := name, ans := some a, made := none }] }
